@@ -24,13 +24,14 @@ class Field:
     def __init__(self, id, label, type, quant, packed=0, oneof=0, sub=None, default=None):
         self.id = id; self.label = label; self.type = type; self.quant = quant
         self.packed = packed; self.oneof = oneof; self.sub = sub; self.default = default
+        self.deprecated = 0      # PROTOBUF_C_FIELD_FLAG_DEPRECATED: no effect on behaviour, but the flags word is no longer a single bit
 
     def line(self):
         d = '-'
         if self.default is not None:
             k, v = self.default
             d = 'W:%016x' % v if k == 'W' else '%s:%s' % (k, bytes(v).hex())
-        return 'F %d %s %s %s %d %d %s %s' % (self.id, self.label, self.type, self.quant, self.packed,
+        return 'F %d %s %s %s %d %d %s %s' % (self.id, self.label, self.type, self.quant, self.packed + 2 * self.deprecated,
                                               self.oneof, '-' if self.sub is None else self.sub, d)
 
     def group(self):
@@ -175,6 +176,8 @@ def gen_env(rnd, nmsgs=None, big=False, oneof_defaults=False, wide=False):
         for f in m.fields:
             if f.type == 'MESSAGE' and f.label == 'REQ' and f.sub <= m.idx:
                 f.label = 'OPT'
+            if rnd.random() < 0.2:
+                f.deprecated = 1
     return Env(msgs)
 
 
@@ -219,6 +222,8 @@ def corner_envs():
     reps.append(F(n, 'REP', 'STRING', 'K', 0, 0, None)); n += 1
     reps.append(F(n, 'REP', 'BYTES', 'K', 0, 0, None)); n += 1
     reps.append(F(n, 'REP', 'MESSAGE', 'K', 0, 0, 0)); n += 1
+    for i, f in enumerate(reps):
+        f.deprecated = 1 if i % 3 == 0 else 0
     e3 = Env([MsgDesc(0, reps, 0, 0)])
     # oneofs with several message-typed members inside a message that can be split over occurrences (merge paths)
     e4 = Env([MsgDesc(0, [F(1, 'OPT', 'MESSAGE', 'N', 0, 0, 1), F(2, 'REP', 'MESSAGE', 'K', 0, 0, 1)], 0, 0),
